@@ -168,10 +168,15 @@ def run_sync(aw):
     raise RuntimeError('awaitable suspended')
 
 
+@utype.parse
+def ret_fn_none(x) -> None:
+    return x
+
+
 @ob('function', marks=['accept', 'reject'], budget=(90, 300), exhaustive=False,
     bounds='@parse def fn(a: PositiveInt, b: List[int], *rest: PositiveInt, k: Optional[str], **kw: PositiveInt) -> PositiveInt '
            'with solver-chosen arguments: the body only ever sees conforming arguments and the caller only a conforming result; '
-           'and functions returning their raw argument under -> List[PositiveInt] / -> PositiveInt, with and without collect_errors, sync and async')
+           'and functions returning their raw argument under -> List[PositiveInt] / -> PositiveInt / -> None, with and without collect_errors, sync and async')
 def function(V):
     which = V.pick('which', ['args', 'return', 'kwargs-with-addition-option'])
     if which == 'kwargs-with-addition-option':
@@ -191,10 +196,12 @@ def function(V):
         return
     if which == 'return':
         x = value(V)
-        variant = V.pick('variant', ['plain', 'collect_errors', 'collect_errors-int', 'collect_errors-async'])
-        want = ('list', PI) if variant in ('plain', 'collect_errors') else PI
+        variant = V.pick('variant', ['plain', 'collect_errors', 'collect_errors-int', 'collect_errors-async', 'none'])
+        want = ('list', PI) if variant in ('plain', 'collect_errors') else ('none',) if variant == 'none' else PI
         try:
-            if variant == 'plain':
+            if variant == 'none':
+                r = ret_fn_none(x)
+            elif variant == 'plain':
                 r = ret_fn(x)
             elif variant == 'collect_errors':
                 r = ret_fn_collect(x)
@@ -340,3 +347,60 @@ def forward_field(V):
         V.cover('accept')
     finally:
         sys.modules.pop(name, None)
+
+
+# ------------------------------------------------------------------ fields that take no input, beside additional keys
+class NoInAdd(Schema):
+    __options__ = Options(addition=True)
+    title: str = ''
+    views: int = Field(no_input=True, default=0)
+    score: int = Field(mode='r', default=1)
+
+
+class NoInAddW(NoInAdd):
+    __options__ = Options(addition=True, mode='w')
+
+
+class NoInAddInt(Schema):
+    __options__ = Options(addition=int)
+    views: int = Field(no_input=True, default=0)
+
+
+@utype.parse
+def no_in_fn(title: str = '', views: int = utype.Param(0, no_input=True), **extra: int):
+    return dict(title=title, views=views, extra=extra)
+
+
+@ob('no-input-beside-additions', marks=['accept', 'reject'], budget=(40, 120),
+    bounds='Schemas with Options(addition=True / int) (and mode="w") holding a no_input field, a mode="r" field, and a @parse function '
+           'with a no-input parameter and **extra: int; input keys solver-picked from {title, views, score, zz} with values "abc" | "5" | 3 | '
+           '[1]: every declared field of the result holds a value of its declared type (a key that spells a no-input field never '
+           'arrives there through the additional keys)')
+def no_input_beside_additions(V):
+    which = V.pick('which', ['NoInAdd', 'NoInAddW', 'NoInAddInt', 'function'])
+    data = {}
+    for k in ('title', 'views', 'score', 'zz'):
+        if V.bool('has_' + k):
+            data[k] = V.pick('v_' + k, ['abc', '5', 3, [1]])
+    if which == 'function':
+        r = attempt(no_in_fn, **data)
+        if r[0] != 'ok':
+            V.check(r[0] == 'err', 'conform:no-input:crash', lambda: 'no_in_fn(**%r) -> %r' % (data, r))
+            V.cover('reject')
+            return
+        got = r[1]
+        V.check(type(got['views']) is int and type(got['title']) is str and all(type(v) is int for v in got['extra'].values()),
+                'conform:no-input-field', lambda: 'no_in_fn(**%r): body saw %r' % (data, got))
+        V.cover('accept')
+        return
+    cls = {'NoInAdd': NoInAdd, 'NoInAddW': NoInAddW, 'NoInAddInt': NoInAddInt}[which]
+    r = attempt(cls, **data)
+    if r[0] != 'ok':
+        V.check(r[0] == 'err', 'conform:no-input:crash', lambda: '%s(**%r) -> %r' % (which, data, r))
+        V.cover('reject')
+        return
+    got = dict(r[1])
+    declared = cls.__parser__.fields
+    ok = all(type(got[k]) is (str if k == 'title' else int) for k in ('views', 'title', 'score') if k in declared and k in got)
+    V.check(ok, 'conform:no-input-field', lambda: '%s(**%r) -> %r' % (which, data, got))
+    V.cover('accept')
